@@ -20,7 +20,8 @@ QUICK_SHARDS = 4
 RULE = (
     "integrals: 2-10^4 levels along one axis of a rank 1-4 array (any axis, "
     "also negative), grid uniform / irregular (drawn positive steps), "
-    "increasing / decreasing, given as 1-D array, as array of the shape of y "
+    "increasing / decreasing, nearly uniform (spacings differing by 1e-7 "
+    "... 1e-5 relative), scaled by 1e-9 / 1e-6 / 1e3, given as 1-D array, as array of the shape of y "
     "(a different grid per column) or omitted; integrand values k/16 or "
     "sign*a*10^e (|e| <= 30); a second integrand, two coefficients and a "
     "split level for linearity / additivity / reversal.  profiles: analytic "
@@ -35,7 +36,13 @@ RULE = (
     "negative) with drawn T in 185-300 K that differs between the columns "
     "and q = beta * q_sat.  heights: pressure2height on irregular decreasing pressure grids "
     "of 2-2000 levels with no / isothermal / arbitrary temperatures; the ISA "
-    "table levels are enumerated.  Non-trivial = irregular grid or rank >= 2 "
+    "table levels are enumerated.  Integer-typed input is a class of its "
+    "own: whole-Pa pressure grids as int64 / int32 arrays and lists of ints "
+    "(also in equal steps of 1-250 Pa), whole-K temperatures and whole-metre "
+    "heights as integer arrays for pressure2height (explicit T and default), "
+    "integrate_water_vapor and column_relative_humidity; integer y (int64 / "
+    "int32) and integer x (also a list) for integrate_column; integer "
+    "heights for standard_atmosphere.  Non-trivial = irregular grid or rank >= 2 "
     "or >= 100 levels (integrals, heights) / every analytic profile.  "
     "Distinct = distinct case hash."
 )
@@ -57,6 +64,8 @@ ASSUMPTIONS = [
     "criteria for the deviation of each form from the quadrature value "
     "(measured on 400 profiles: <= 3e-5 on 1537 levels, ratios 1/15.3 .. "
     "1/16)",
+    "p is an ndarray or a list of numbers; T, z, vmr, q are ndarrays (a "
+    "list for T fails in density(): documented as ndarray)",
     "pressure2height: neighbouring levels differ by at least 1e-6 relative "
     "(otherwise a layer is thinner than the rounding error of the height)",
     "standard_atmosphere vs the ISA definition (T0 = 288.15 K, p0 = 101325 "
@@ -67,6 +76,43 @@ ASSUMPTIONS = [
 
 LD = np.longdouble
 U = 2.0 ** -53
+
+
+# --------------------------------------------------------------------------
+# integer-typed input (whole Pa, whole K, whole metres, integer integrands)
+# --------------------------------------------------------------------------
+PTYPES = ["float", "float", "float", "int64", "int32", "list-int"]
+
+
+def typed(values, kind):
+    """the numeric values as float64 / int64 / int32 array or list of ints"""
+    if kind == "int64":
+        return np.array([int(v) for v in values], dtype=np.int64)
+    if kind == "int32":
+        return np.array([int(v) for v in values], dtype=np.int32)
+    if kind == "list-int":
+        return [int(v) for v in values]
+    return np.array(values, dtype=float)
+
+
+def int_grid(p, floor=1):
+    """whole-Pa version of a decreasing pressure grid: rounded, strictly
+    decreasing by at least 1 Pa, cut off at `floor`"""
+    out = [int(round(p[0]))]
+    for v in p[1:]:
+        nxt = min(int(round(v)), out[-1] - 1)
+        if nxt < floor:
+            break
+        out.append(nxt)
+    if len(out) < 2:
+        out = [max(out[0], floor + 1), max(out[0], floor + 1) - 1]
+    return out
+
+
+def label_types(ctx, **kinds):
+    for name, kind in kinds.items():
+        if kind not in (None, "float"):
+            ctx.label("%s-%s" % (name, kind), "integer-typed-input")
 
 
 # ==========================================================================
@@ -89,8 +135,9 @@ def _floats():
 
 @st.composite
 def integral_cases(draw, nmax=10000):
-    style = draw(st.sampled_from(["lattice", "float"]))
-    el = _lattice() if style == "lattice" else _floats()
+    style = draw(st.sampled_from(["lattice", "float", "int"]))
+    el = (_lattice() if style == "lattice" else _floats() if style == "float"
+          else st.integers(-1600, 1600).map(float))
     N = draw(st.one_of(st.integers(2, 8), st.integers(2, 60),
                        st.integers(100, 600), st.integers(100, nmax)))
     rank = draw(st.sampled_from([1, 1, 2, 2, 3, 4]))
@@ -116,11 +163,20 @@ def integral_cases(draw, nmax=10000):
     y2 = values(total)
     # grid
     xmode = draw(st.sampled_from(["none", "1d", "1d", "1d", "nd"]))
-    grid = draw(st.sampled_from(["uniform", "irregular", "irregular"]))
+    grid = draw(st.sampled_from(["uniform", "irregular", "irregular",
+                                 "nearly-uniform"]))
+    if style != "float" and grid == "nearly-uniform":
+        grid = "irregular"
+    # coordinates of small / large magnitude (wavelengths in m, ...)
+    xscale = draw(st.sampled_from([1.0, 1.0, 1e-9, 1e-6, 1e3])) \
+        if style == "float" else 1.0
     direction = draw(st.sampled_from(["increasing", "decreasing"]))
     x = None
     if xmode != "none":
-        if style == "lattice":
+        if style == "int":
+            step = st.integers(1, 64).map(float)
+            x0 = float(draw(st.integers(-1000, 100000)))
+        elif style == "lattice":
             step = st.integers(1, 64).map(lambda k: k / 16.0)
             x0 = draw(_lattice())
         else:
@@ -129,6 +185,15 @@ def integral_cases(draw, nmax=10000):
             x0 = draw(st.floats(-1e4, 1e5, allow_nan=False))
         if grid == "uniform":
             steps = [draw(step)] * (N - 1)
+        elif grid == "nearly-uniform":
+            # spacings that differ by 1e-7 .. 1e-5 relative
+            h = draw(step)
+            pool = draw(st.lists(st.floats(-1.0, 1.0, allow_nan=False),
+                                 min_size=5, max_size=19))
+            mag = draw(st.sampled_from([1e-7, 1e-6, 1e-5]))
+            steps = [h * (1.0 + mag * v) for v in GS.tile(
+                pool, N - 1, draw(st.integers(1, 18)),
+                draw(st.integers(0, 18)), 0.0)]
         elif N - 1 <= 60:
             steps = draw(st.lists(step, min_size=N - 1, max_size=N - 1))
         else:
@@ -136,9 +201,9 @@ def integral_cases(draw, nmax=10000):
             steps = GS.tile(pool, N - 1, draw(st.integers(1, 28)),
                             draw(st.integers(0, 28)), 0.0)
         sgn = 1.0 if direction == "increasing" else -1.0
-        x = [x0]
+        x = [x0 * xscale]
         for s in steps:
-            x.append(x[-1] + sgn * s)
+            x.append(x[-1] + sgn * s * xscale)
         if any(x[i + 1] == x[i] for i in range(N - 1)):
             # steps below the resolution of x0: use a plain grid
             x = [sgn * float(i) for i in range(N)]
@@ -146,16 +211,25 @@ def integral_cases(draw, nmax=10000):
         if xmode == "nd":
             # a different grid per column: c + s * x
             ncol = total // N
-            cs = draw(st.lists(st.sampled_from([0.0, 1.0, -3.0, 0.5]),
+            half = [] if style == "int" else [0.5]
+            cs = draw(st.lists(st.sampled_from([0.0, 1.0, -3.0] + half),
                                min_size=ncol, max_size=ncol))
-            ss = draw(st.lists(st.sampled_from([1.0, 2.0, 0.5, -1.0, 4.0]),
+            ss = draw(st.lists(st.sampled_from([1.0, 2.0, -1.0, 4.0] + half),
                                min_size=ncol, max_size=ncol))
             cols = np.array([[c + s * v for v in x]
                              for c, s in zip(cs, ss)])       # (ncol, N)
             xa = np.moveaxis(cols.reshape(other + [N]), -1, pos)
             x = xa.reshape(-1).tolist()
     coef = st.sampled_from([1.0, -1.0, 2.0, 0.5, -0.25, 3.0, 0.0])
+    ytype = xtype = "float"
+    if style == "int":
+        ytype = draw(st.sampled_from(["int64", "int32"]))
+        xtype = draw(st.sampled_from(
+            ["int64", "int32", "float"]
+            + (["list-int"] if xmode == "1d" else [])))
     return {"shape": shape, "axis": axis, "style": style, "xmode": xmode,
+            "ytype": ytype, "xtype": xtype,
+            "xscale": xscale if xmode != "none" else 1.0,
             "grid": grid if xmode != "none" else "unit",
             "direction": direction if xmode != "none" else "increasing",
             "x": x, "y": y, "y2": y2, "a": draw(coef), "b": draw(coef),
@@ -176,15 +250,27 @@ def check_integral(case, ctx):
     axis = case["axis"]
     pos = axis % rank
     N = shape[pos]
-    y = np.array(case["y"], dtype=float).reshape(shape)
-    y2 = np.array(case["y2"], dtype=float).reshape(shape)
+    ytype, xtype = case.get("ytype", "float"), case.get("xtype", "float")
+    y = typed(case["y"], ytype).reshape(shape)
+    y2 = typed(case["y2"], ytype).reshape(shape)
     xmode = case["xmode"]
+    x_list = None
     if xmode == "none":
         x = None
     elif xmode == "1d":
-        x = np.array(case["x"], dtype=float)
+        x = typed(case["x"], xtype)
+        if xtype == "list-int":       # handed over as a list of ints
+            x_list, x = x, np.array(x, dtype=np.int64)
     else:
-        x = np.array(case["x"], dtype=float).reshape(shape)
+        x = typed(case["x"], xtype).reshape(shape)
+    label_types(ctx, y=ytype, x=xtype if xmode != "none" else None)
+    if case.get("xscale", 1.0) != 1.0:
+        ctx.label("x-scale-%g" % case["xscale"])
+    if x is not None and xmode == "1d" and N > 2:
+        dx = np.diff(np.asarray(x, dtype=float))
+        if (np.abs(dx - dx[0]).max() > 0
+                and np.abs(dx - dx[0]).max() <= 1e-8 + 1e-5 * abs(dx[0])):
+            ctx.label("x-irregular-but-nearly-equidistant")
     ctx.label("rank-%d" % rank, "x-" + xmode, "grid-" + case["grid"],
               case["direction"], "style-" + case["style"])
     if rank >= 3:
@@ -205,7 +291,7 @@ def check_integral(case, ctx):
         got = (integrate_column(y, axis=axis) if (axis != 0 or rank > 1)
                else integrate_column(y))
     else:
-        got = integrate_column(y, x, axis=axis)
+        got = integrate_column(y, x if x_list is None else x_list, axis=axis)
     ctx.check(np.shape(got) == out_shape, "integral/shape", lambda: (
         "y shape %r axis %r: result shape %r, expected %r" % (
             shape, axis, np.shape(got), out_shape)))
@@ -562,20 +648,35 @@ def column_cases(draw):
     for i in range(1, N):              # strictly decreasing by >= 1e-6 rel.
         if p[i] > p[i - 1] * (1 - 1e-6):
             p[i] = p[i - 1] * (1 - 1e-6)
+    ptype = draw(st.sampled_from(PTYPES))
+    Ttype = ztype = "float"
+    if ptype != "float":
+        p = int_grid(p)                  # whole Pa
+        N = len(p)
+        Ttype = draw(st.sampled_from(["float", "int64", "int32"]))
+        ztype = draw(st.sampled_from(["float", "int64", "int32"]))
     tot = N * max(ncol, 1)
     vmr = vec(st.one_of(st.floats(0.0, 0.05, allow_nan=False),
                         st.sampled_from([0.0, 0.0, 1e-6, 0.3])), tot)
     T = vec(st.floats(150.0, 350.0, allow_nan=False), tot)
     dz = vec(st.floats(0.5, 3000.0, allow_nan=False), tot)
+    if Ttype != "float":
+        T = [float(round(v)) for v in T]             # whole K
+    if ztype != "float":
+        dz = [float(max(1, round(v))) for v in dz]   # whole metres
     return {"N": N, "ncol": ncol, "axis": axis, "p": p, "vmr": vmr, "T": T,
-            "dz": dz}
+            "dz": dz, "ptype": ptype, "Ttype": Ttype, "ztype": ztype}
 
 
 def check_columns(case, ctx):
     from typhon.physics import integrate_water_vapor
     C = consts()
     N, ncol, axis = case["N"], case["ncol"], case["axis"]
+    ptype = case.get("ptype", "float")
+    Ttype, ztype = case.get("Ttype", "float"), case.get("ztype", "float")
     p = np.array(case["p"], dtype=float)
+    p_arg = typed(case["p"], ptype)          # what typhon gets
+    label_types(ctx, p=ptype, T=Ttype, z=ztype)
     if ncol == 0:
         shape = (N,)
     else:
@@ -596,12 +697,18 @@ def check_columns(case, ctx):
 
     vmr, T, dz = arr("vmr"), arr("T"), arr("dz")
     z = np.cumsum(dz, axis=axis) - np.take(dz, [0], axis=axis)
-    h = integrate_water_vapor(vmr, p, axis=axis)
+    T_arg = T if Ttype == "float" else T.astype(Ttype)
+    z_arg = z if ztype == "float" else z.astype(ztype)
+    h = integrate_water_vapor(vmr, p_arg, axis=axis)
     ctx.check(np.shape(h) == (() if ncol == 0 else (ncol,)), "iwv/shape",
               lambda: repr(np.shape(h)))
-    pfull = p if ncol == 0 else (p[:, None] if axis == 0 else p[None, :])
-    pfull = np.broadcast_to(pfull, shape).copy()
-    g = integrate_water_vapor(vmr, pfull, T, z, axis=axis)
+    if ncol == 0:
+        pfull = p_arg
+    else:
+        pa = np.asarray(p_arg)
+        pfull = np.broadcast_to(pa[:, None] if axis == 0 else pa[None, :],
+                                shape).copy()
+    g = integrate_water_vapor(vmr, pfull, T_arg, z_arg, axis=axis)
     h = np.atleast_1d(np.asarray(h, dtype=float))
     g = np.atleast_1d(np.asarray(g, dtype=float))
     vc = vmr.reshape(N, -1) if axis == 0 else vmr.reshape(-1, N).T
@@ -624,9 +731,9 @@ def check_columns(case, ctx):
                       "column %d (N=%d): %r, int rho_v dz = %r" % (
                           c, N, g[c], ref_g)))
     # T without z (or z without T) is an error by documentation
-    for kw in ({"T": T}, {"z": z}):
+    for kw in ({"T": T_arg}, {"z": z_arg}):
         try:
-            integrate_water_vapor(vmr, p, axis=axis, **kw)
+            integrate_water_vapor(vmr, p_arg, axis=axis, **kw)
         except ValueError:
             continue
         ctx.fail("iwv/no-ValueError-for-T-xor-z", repr(list(kw)))
@@ -674,8 +781,15 @@ def crh_cases(draw):
     T = GS.tile(pool_T, tot, a, draw(st.integers(0, 22)), 0.0)
     beta = GS.tile(pool_b, tot, draw(st.integers(1, 12)),
                    draw(st.integers(0, 12)), 0.0)
+    ptype = draw(st.sampled_from(PTYPES))
+    Ttype = "float"
+    if ptype != "float":
+        p = int_grid(p)                  # whole Pa (never cut: p > 140 hPa)
+        Ttype = draw(st.sampled_from(["float", "int64", "int32"]))
+        if Ttype != "float":
+            T = [float(round(v)) for v in T]         # whole K
     return {"shape": shape, "axis": axis, "p": [float(v) for v in p],
-            "T": T, "beta": beta,
+            "T": T, "beta": beta, "ptype": ptype, "Ttype": Ttype,
             "alpha": draw(st.floats(0.05, 1.0, allow_nan=False))}
 
 
@@ -689,6 +803,9 @@ def check_crh(case, ctx):
     N = shape[pos]
     other = shape[:pos] + shape[pos + 1:]
     p = np.array(case["p"], dtype=float)
+    ptype, Ttype = case.get("ptype", "float"), case.get("Ttype", "float")
+    p_arg = typed(case["p"], ptype)
+    label_types(ctx, p=ptype, T=Ttype)
     ctx.label("crh-rank-%d" % rank, "decreasing")
     if rank >= 2:
         ctx.nontrivial = True
@@ -716,9 +833,10 @@ def check_crh(case, ctx):
         ctx.label("crh-columns-differ")
 
     def crh(qq):
+        T_arg = T.copy() if Ttype == "float" else T.astype(Ttype)
         if rank == 1:
-            return column_relative_humidity(qq.copy(), p, T.copy())
-        return column_relative_humidity(qq.copy(), p, T.copy(), axis=axis)
+            return column_relative_humidity(qq.copy(), p_arg, T_arg)
+        return column_relative_humidity(qq.copy(), p_arg, T_arg, axis=axis)
 
     sat = crh(qs)
     ctx.check(np.shape(sat) == other, "crh/shape", lambda: (
@@ -775,6 +893,19 @@ def height_cases(draw):
     for i in range(1, N):
         if p[i] > p[i - 1] * (1 - 1e-6):
             p[i] = p[i - 1] * (1 - 1e-6)
+    gridname = "uniform-ratio" if uniform else "irregular"
+    ptype = draw(st.sampled_from(PTYPES))
+    Ttype = "float"
+    if ptype != "float":
+        if draw(st.integers(0, 2)) == 0:
+            # whole Pa in equal steps, like np.arange(100000, 49999, -5)
+            step = draw(st.sampled_from([1, 2, 5, 10, 50, 250]))
+            p = [int(round(p0)) - k * step for k in range(N)]
+            p = [v for v in p if v >= 1000]
+            gridname = "uniform-step"
+        p = int_grid(p)
+        N = len(p)
+        Ttype = draw(st.sampled_from(["float", "int64", "int32"]))
     mode = draw(st.sampled_from(["isa", "isothermal", "isothermal",
                                  "arbitrary"]))
     T = None
@@ -782,14 +913,19 @@ def height_cases(draw):
         T = [draw(st.floats(150.0, 350.0, allow_nan=False))] * N
     elif mode == "arbitrary":
         T = vec(st.floats(150.0, 350.0, allow_nan=False), N)
-    return {"p": p, "T": T, "mode": mode,
-            "grid": "uniform-ratio" if uniform else "irregular"}
+    if T is not None and Ttype != "float":
+        T = [float(round(v)) for v in T]             # whole K
+    return {"p": p, "T": T, "mode": mode, "grid": gridname,
+            "ptype": ptype, "Ttype": Ttype if T is not None else "float"}
 
 
 def check_heights(case, ctx):
     from typhon.physics import pressure2height, standard_atmosphere
     from typhon import constants as c
     p = np.array(case["p"], dtype=float)
+    ptype, Ttype = case.get("ptype", "float"), case.get("Ttype", "float")
+    p_arg = typed(case["p"], ptype)          # what typhon gets
+    label_types(ctx, p=ptype, T=Ttype)
     N = p.size
     mode = case["mode"]
     ctx.label("T-" + mode, "grid-" + case["grid"], "decreasing")
@@ -800,17 +936,22 @@ def check_heights(case, ctx):
     if case["grid"] == "irregular" or N >= 100:
         ctx.nontrivial = True
     if mode == "isa":
-        z = pressure2height(p)
-        T = np.asarray(standard_atmosphere(p, coordinates="pressure"),
+        z = pressure2height(p_arg)
+        T = np.asarray(standard_atmosphere(p_arg, coordinates="pressure"),
                        dtype=float)
-        z2 = pressure2height(p, T)
+        Tf = np.asarray(standard_atmosphere(p, coordinates="pressure"),
+                        dtype=float)
+        ctx.check(np.array_equal(T, Tf), "isa/integer-pressures-differ",
+                  lambda: "max difference %r" % np.abs(T - Tf).max())
+        z2 = pressure2height(p_arg, T)
         ctx.check(np.shape(z2) == (N,) and np.allclose(z, z2, rtol=1e-14,
                                                        atol=0),
                   "p2h/default-is-not-standard-atmosphere", lambda: (
                       "max difference %r" % np.abs(z - z2).max()))
     else:
         T = np.array(case["T"], dtype=float)
-        z = pressure2height(p, T)
+        z = pressure2height(p_arg, T if Ttype == "float" else T.astype(Ttype))
+    z_raw = np.asarray(z)
     z = np.asarray(z, dtype=float)
     ctx.check(z.shape == (N,), "p2h/shape", lambda: repr(z.shape))
     ctx.check(z[0] == 0, "p2h/does-not-start-at-0", lambda: repr(z[0]))
@@ -842,6 +983,10 @@ def check_heights(case, ctx):
                           z[-3:], law[-3:].astype(float),
                           slack[-3:].astype(float))))
 
+    ctx.check(np.issubdtype(z_raw.dtype, np.floating),
+              "p2h/result-not-float", lambda: (
+                  "p %s: heights have dtype %r: %r" % (
+                      ptype, z_raw.dtype, z_raw[:6])))
 
 ISA_H = [-610.0, 11000.0, 20000.0, 32000.0, 47000.0, 51000.0, 71000.0,
          84852.0]
@@ -902,6 +1047,13 @@ def check_isa(case, ctx):
         ctx.check(abs(Th - Tp) <= (0.03 if tol == 0.1 else 5e-4),
                   "isa/addressing-disagrees", lambda: (
                       "level %r m: by height %r, by pressure %r" % (h, Th, Tp)))
+        # integer heights (Python int, int64 / int32 arrays, list of ints)
+        for arg in (int(h), np.array([int(h)], dtype=np.int64),
+                    np.array([int(h)], dtype=np.int32), [int(h)]):
+            Ti = np.asarray(standard_atmosphere(arg), dtype=float).reshape(-1)
+            ctx.check(Ti.size == 1 and Ti[0] == Th, "isa/integer-height",
+                      lambda: "T(%r) = %r, T(%r) = %r" % (arg, Ti, h, Th))
+        ctx.label("integer-typed-input")
         # array input gives the same as scalar input
         arr = np.asarray(standard_atmosphere(np.array([h, h + 1.0])))
         ctx.check(arr.shape == (2,) and arr[0] == Th, "isa/array-input",
